@@ -13,7 +13,7 @@ import (
 // C06: required options and argument counts are enforced.
 
 var c06Decl = &GenCfg{Depth: 3, Fanout: 2, MaxOpts: 3, MaxGroups: 2, NestGroups: 2, Kinds: []Kind{KBool, KString, KInt, KStringSlice, KBoolSlice, KMapSS, KFuncS, KFunc0, KFloat64, KIntPtr, KTri, KUpper},
-	Pos: true, PosPct: 55, PosReq: true, Ns: true, Req: 40, OptArg: true, Aliases: true, SubOpt: 35, NonASCII: true, Defaults: true, Env: true, EnvNs: true, Hidden: true, InCode: 25, ViaAdd: 5, StaticTwins: true,
+	Pos: true, PosPct: 55, PosReq: true, Ns: true, Req: 40, OptArg: true, Aliases: true, SubOpt: 35, NonASCII: true, Defaults: true, Env: true, EnvNs: true, Hidden: true, InCode: 25, ViaAdd: 5, FlagChoice: true, StaticTwins: true,
 	ParserOpts: []flags.Options{flags.HelpFlag, flags.PassDoubleDash, flags.PassAfterNonOption}}
 
 var c06Argv = &ArgvCfg{MaxItems: 2, WOpt: 55, WCluster: 14, WCmd: 4, WPlain: 10, WTerm: 5, WUnknown: 0, WJunk: 0, WRepeat: 10, BadVal: 0, Quote: 4}
